@@ -85,6 +85,8 @@ type vfRef struct {
 	formed   bool
 	lastRev  uint64
 	resolved int // 0 none, 1 successful, 2 failed, 3 renewed
+	formIdx  types.ChainIndex
+	resIdx   types.ChainIndex
 }
 
 func vfFold(chain []*vfBlock) map[*vfContract]*vfRef {
@@ -102,14 +104,18 @@ func vfFold(chain []*vfBlock) map[*vfContract]*vfRef {
 			case evForm:
 				r.formed = true
 				r.lastRev = e.new
+				r.formIdx = b.index()
 			case evRev:
 				r.lastRev = e.new
 			case evProof, evMissOK:
 				r.resolved = 1
+				r.resIdx = b.index()
 			case evFail:
 				r.resolved = 2
+				r.resIdx = b.index()
 			case evRenew:
 				r.resolved = 3
+				r.resIdx = b.index()
 			}
 		}
 	}
@@ -817,6 +823,80 @@ func vfVer(c *vfContract) string {
 	return "v1"
 }
 
+// checkShadow compares what the store reports with a plain fold over the blocks of the current
+// best chain (the harness's own reading of C01, independent of the code and of the Coq model).
+func (w *vfWorld) checkShadow(when string) {
+	if w.mode != "C01" || !w.wellFormed {
+		return
+	}
+	ref := vfFold(w.chain)
+	get := func(c *vfContract) *vfRef {
+		if r := ref[c]; r != nil {
+			return r
+		}
+		return &vfRef{}
+	}
+	for _, c := range w.v1 {
+		r := get(c)
+		got, err := w.db.Contract(c.id)
+		if err != nil {
+			w.t.Fatal(err)
+		}
+		want := contracts.ContractStatusPending
+		var wantRes uint64
+		switch {
+		case r.formed && r.resolved == 0:
+			want = contracts.ContractStatusActive
+		case r.resolved == 1:
+			want, wantRes = contracts.ContractStatusSuccessful, r.resIdx.Height
+		case r.resolved == 2:
+			want = contracts.ContractStatusFailed
+		}
+		det := fmt.Sprintf("%s: v1 contract %d reports {status %v formed %v revisionConfirmed %v resolution %d}; the best chain has {formed %v lastRevision %d resolved %d at %v}, stored revision %d",
+			when, c.num, got.Status, got.FormationConfirmed, got.RevisionConfirmed, got.ResolutionHeight, r.formed, r.lastRev, r.resolved, r.resIdx, c.rev)
+		switch {
+		case got.FormationConfirmed != r.formed:
+			w.em.Monitor("v1-formation-confirmed-differs-from-chain", det)
+		case got.Status != want && !(want == contracts.ContractStatusPending && got.Status == contracts.ContractStatusRejected):
+			w.em.Monitor("v1-status-differs-from-chain", det)
+		case got.ResolutionHeight != wantRes:
+			w.em.Monitor("v1-resolution-height-differs-from-chain", det)
+		case got.RevisionConfirmed != (c.rev == r.lastRev):
+			w.em.Monitor("v1-revision-confirmed-differs-from-chain", det)
+		}
+	}
+	for _, c := range w.v2 {
+		r := get(c)
+		got, err := w.db.V2Contract(c.id)
+		if err != nil {
+			w.t.Fatal(err)
+		}
+		want := contracts.V2ContractStatusPending
+		switch {
+		case r.formed && r.resolved == 0:
+			want = contracts.V2ContractStatusActive
+		case r.resolved == 1:
+			want = contracts.V2ContractStatusSuccessful
+		case r.resolved == 2:
+			want = contracts.V2ContractStatusFailed
+		case r.resolved == 3:
+			want = contracts.V2ContractStatusRenewed
+		}
+		det := fmt.Sprintf("%s: v2 contract %d reports {status %v formation %v revisionConfirmed %v resolution %v}; the best chain has {formed at %v lastRevision %d resolved %d at %v}, stored revision %d",
+			when, c.num, got.Status, got.FormationIndex, got.RevisionConfirmed, got.ResolutionIndex, r.formIdx, r.lastRev, r.resolved, r.resIdx, c.rev)
+		switch {
+		case got.FormationIndex != r.formIdx:
+			w.em.Monitor("v2-formation-index-differs-from-chain", det)
+		case got.Status != want && !(want == contracts.V2ContractStatusPending && got.Status == contracts.V2ContractStatusRejected):
+			w.em.Monitor("v2-status-differs-from-chain", det)
+		case got.ResolutionIndex != r.resIdx:
+			w.em.Monitor("v2-resolution-index-differs-from-chain", det)
+		case got.RevisionConfirmed != (r.formed && c.rev == r.lastRev):
+			w.em.Monitor("v2-revision-confirmed-differs-from-chain", det)
+		}
+	}
+}
+
 // commit updates the shadow chain after a successful update and runs the C01 step monitors
 func (w *vfWorld) commit(reverts, applies []*vfBlock) {
 	for range reverts {
@@ -845,6 +925,7 @@ func (w *vfWorld) commit(reverts, applies []*vfBlock) {
 	if w.mode != "C01" || !w.wellFormed {
 		return
 	}
+	w.checkShadow("after update")
 	cols := vfChainCols(w.t, w.db)
 	// disconnecting blocks undoes what connecting them did: the chain columns are those recorded
 	// when the current tip was applied (modulo one-way rejection, for contracts known back then)
@@ -1065,6 +1146,7 @@ func (w *vfWorld) rescan() {
 			}
 		}
 	}
+	w.checkShadow("after rescan")
 	if w.mode == "C01" && w.wellFormed && len(chain) > 0 {
 		w.tipSnaps[chain[len(chain)-1].bid] = vfChainCols(w.t, w.db)
 	}
